@@ -672,9 +672,12 @@ struct Transparent {
 fn gen_transparent(rng: &mut Rng) -> Transparent {
     let firsts = ['a', 'b', 'c', 'd', 'e', 'f', 'é', '😀'];
     // now and then: more than 256 modes (mode numbers beyond one byte), and wide transition lists
-    let many_modes = rng.chance(1, 30);
-    let wide = many_modes || rng.chance(1, 8);
-    let n_modes = if many_modes { rng.range(257, 300) } else { rng.range(1, 4) };
+    // and very rarely more than 65 536 modes (mode numbers beyond two bytes; such a scanner still
+    // builds in a few seconds because every mode is tiny)
+    let huge_modes = false; // the 65 536 boundary has its own directed stream (c06_huge_modes_case)
+    let many_modes = huge_modes || rng.chance(1, 30);
+    let wide = (many_modes && !huge_modes) || rng.chance(1, 8);
+    let n_modes = if huge_modes { rng.range(65_537, 65_600) } else if many_modes { rng.range(257, 300) } else { rng.range(1, 4) };
     let pool: Vec<usize> = {
         let by_index = rng.chance(1, 2);
         let mut v = gen_token_types(rng, if wide { 30 } else { 7 }, by_index);
@@ -738,7 +741,15 @@ fn gen_transparent(rng: &mut Rng) -> Transparent {
         tr.sort();
         let trans: Vec<(usize, usize)> = tr
             .into_iter()
-            .map(|t| (t, if many_modes && rng.chance(1, 2) { rng.range(256, n_modes - 1) } else { rng.below(n_modes) }))
+            .map(|t| {
+                (t, if huge_modes && (mi < 3 || rng.chance(1, 2)) {
+                    rng.range(65_536, n_modes - 1)
+                } else if many_modes && rng.chance(1, 2) {
+                    rng.range(256, n_modes - 1)
+                } else {
+                    rng.below(n_modes)
+                })
+            })
             .collect();
         modes.push(ModeCfg {
             name: format!("MODE_{}", mi),
@@ -777,6 +788,9 @@ fn transparent_next(t: &Transparent, input: &str, pos: &mut usize, mode: &mut us
                         *mode = m.trans[i].1;
                         if *mode > 255 {
                             st.count("switch_into_a_mode_numbered_above_255");
+                        }
+                        if *mode > 65_535 {
+                            st.count("switch_into_a_mode_numbered_above_65535");
                         }
                     }
                     None => {
@@ -1046,12 +1060,89 @@ pub fn c06_general_case(rng: &mut Rng, st: &mut Stats) -> CaseOutcome {
     }
 }
 
+/// More than 65 536 modes: every mode has the patterns a, b, c (types 1, 2, 3); the modes 0, 1, 2,
+/// 65 535, 65 536, 65 537 and the last two switch among each other on every token type, all other
+/// modes switch back to mode 0 on `a`. The expected stream is a table lookup. (Mode numbers beyond
+/// two bytes; the scanner builds in a few seconds because every mode is tiny.)
+pub fn c06_huge_modes_case(rng: &mut Rng, st: &mut Stats) -> CaseOutcome {
+    let n = 65_538 + rng.below(60);
+    let hubs: Vec<usize> = vec![0, 1, 2, 65_535, 65_536, 65_537, n - 2, n - 1];
+    let mut trans_of: std::collections::HashMap<usize, Vec<(usize, usize)>> = std::collections::HashMap::new();
+    for h in &hubs {
+        let mut t = Vec::new();
+        for tt in 1..=3usize {
+            if rng.chance(4, 5) {
+                t.push((tt, *rng.pick(&hubs)));
+            }
+        }
+        trans_of.insert(*h, t);
+    }
+    let pats = || vec![scnr::Pattern::new("a".to_string(), 1), scnr::Pattern::new("b".to_string(), 2), scnr::Pattern::new("c".to_string(), 3)];
+    let modes: Vec<scnr::ScannerMode> = (0..n)
+        .map(|m| scnr::ScannerMode::new(&format!("M{}", m), pats(), trans_of.get(&m).cloned().unwrap_or_else(|| vec![(1, 0)])))
+        .collect();
+    let input: String = (0..60).map(|_| *rng.pick(&['a', 'b', 'c', 'z', 'a', 'b'])).collect();
+    let case = || json!({"kind": "c06_huge", "modes": n, "hub_transitions": hubs.iter().map(|h| json!({"mode": h, "transitions": trans_of[h]})).collect::<Vec<_>>(), "input": input});
+    let scanner = match sut(|| scnr::ScannerBuilder::new().add_scanner_modes(&modes).build_uncached()) {
+        Ok(Ok(s)) => s,
+        Ok(Err(e)) => return CaseOutcome::Violated(Violation::new(format!("a configuration of {} tiny modes does not build: {}", n, e), case())),
+        Err(p) => return CaseOutcome::Violated(Violation::new(format!("build panicked: {}", p), case())),
+    };
+    st.count("scanners_with_more_than_65536_modes");
+    let r = sut(|| -> Result<(), String> {
+        let mut it = scanner.find_iter(&input);
+        let mut mode = 0usize;
+        for (o, c) in input.char_indices() {
+            let tt = match c {
+                'a' => 1,
+                'b' => 2,
+                'c' => 3,
+                _ => continue,
+            };
+            let got = it.next().map(Tok::from);
+            let exp = Tok { tt, start: o, end: o + 1 };
+            if got != Some(exp) {
+                return Err(format!("in mode {} the token at offset {} is {:?}, expected {:?}", mode, o, got, exp));
+            }
+            let table = trans_of.get(&mode).cloned().unwrap_or_else(|| vec![(1, 0)]);
+            if let Some((_, target)) = table.iter().find(|(t, _)| *t == tt) {
+                mode = *target;
+                st.count("switch_taken");
+                if mode > 65_535 {
+                    st.count("switch_into_a_mode_numbered_above_65535");
+                }
+            }
+            if it.current_mode() != mode {
+                return Err(format!("after the token at offset {} (type {}) current_mode() = {}, the configured transitions give {}", o, tt, it.current_mode(), mode));
+            }
+            if it.mode_name(mode) != Some(format!("M{}", mode).as_str()) {
+                return Err(format!("mode_name({}) = {:?}", mode, it.mode_name(mode)));
+            }
+        }
+        if it.next().is_some() {
+            return Err("a token after the last one".to_string());
+        }
+        Ok(())
+    });
+    match r {
+        Ok(Ok(())) => {
+            st.nontrivial(hash_of(&(n, &input)));
+            CaseOutcome::Ok
+        }
+        Ok(Err(e)) => CaseOutcome::Violated(Violation::new(e, case())),
+        Err(p) => CaseOutcome::Violated(Violation::new(format!("panic: {}", p), case())),
+    }
+}
+
 pub fn c06(tier: Tier) -> i32 {
     let ctx = Ctx::new("C06", tier, "exploration");
     let n = ctx.scale(30_000, 2_000_000);
     let mut res = run_cases(&ctx, 1, n, |rng, _i, st| c06_case(rng, st));
     let n2 = ctx.scale(15_000, 1_000_000);
     res.merge(run_cases(&ctx, 2, n2, |rng, _i, st| c06_general_case(rng, st)));
+    // stream 4: more than 65 536 modes
+    let n4 = ctx.scale(8, 96);
+    res.merge(run_cases(&ctx, 4, n4, |rng, _i, st| c06_huge_modes_case(rng, st)));
     // stream 3: the repository's corpora (mode files with their inputs) re-tokenized in lock step
     // by the real scanner and by the derivative-based reference tokenizer with modes and lookaheads
     #[cfg(feature = "hooks")]
@@ -1094,7 +1185,7 @@ pub fn c06(tier: Tier) -> i32 {
         }));
     }
     let report = Report::new(
-        "stream 3: the repository's mode files with their inputs (veryl_modes.json + veryl_input.veryl, parol.json + input_1.par, tests/data/*.json + *.input) re-tokenized in lock step by the real scanner and by a derivative-based reference tokenizer with modes and lookaheads. stream 2: random multi-mode configurations over GENERAL patterns (overlapping languages, lookaheads, token types shared between modes, set_mode mid-stream): every token must be the one the tokenizer rule of the reference semantics gives for the patterns of the model's current mode, and current_mode() must follow the configured transitions. stream 1: random mode graphs (1-4 modes, one case in 30 with 257-300 modes; one in 8 with 4-16 transitions per mode (a sixth of those: 257-300); per mode 1-5 keyword patterns with pairwise distinct first letters so that the expected stream is computable by a 10-line function; token types drawn from a pool shared between modes, incl. values above 65535; 0-3 sorted transitions per mode to existing modes incl. self-loops and entries for token types the mode never produces), 1-3 iterations per scanner with Scanner::set_mode in between, histories of next / peek_n / set_mode / current_mode / mode_name on FindMatches and through WithPositions. Oracle: sequential model (position, mode); every token, every current_mode() reading after every call and every mode_name are compared. Distinct by hash of (configuration, plans).",
+        "stream 4: scanners of 65 538-65 597 tiny modes (patterns a b c in every mode; the modes 0, 1, 2, 65 535, 65 536, 65 537 and the last two switch among each other), token and mode after every token compared with a table lookup; stream 3: the repository's mode files with their inputs (veryl_modes.json + veryl_input.veryl, parol.json + input_1.par, tests/data/*.json + *.input) re-tokenized in lock step by the real scanner and by a derivative-based reference tokenizer with modes and lookaheads. stream 2: random multi-mode configurations over GENERAL patterns (overlapping languages, lookaheads, token types shared between modes, set_mode mid-stream): every token must be the one the tokenizer rule of the reference semantics gives for the patterns of the model's current mode, and current_mode() must follow the configured transitions. stream 1: random mode graphs (1-4 modes, one case in 30 with 257-300 modes; one in 8 with 4-16 transitions per mode (a sixth of those: 257-300); per mode 1-5 keyword patterns with pairwise distinct first letters so that the expected stream is computable by a 10-line function; token types drawn from a pool shared between modes, incl. values above 65535; 0-3 sorted transitions per mode to existing modes incl. self-loops and entries for token types the mode never produces), 1-3 iterations per scanner with Scanner::set_mode in between, histories of next / peek_n / set_mode / current_mode / mode_name on FindMatches and through WithPositions. Oracle: sequential model (position, mode); every token, every current_mode() reading after every call and every mode_name are compared. Distinct by hash of (configuration, plans).",
     )
     .floor("switch_taken", 10_000)
     .floor("token_without_transition", 10_000)
@@ -1107,6 +1198,7 @@ pub fn c06(tier: Tier) -> i32 {
     .floor("switch_taken_from_a_list_of_more_than_8_transitions", 2_000)
     .floor("switch_taken_from_a_list_of_more_than_256_transitions", 200)
     .floor("switch_into_a_mode_numbered_above_255", 150)
+    .floor("switch_into_a_mode_numbered_above_65535", 10)
     .floor("cached_sibling_with_other_transitions_built_first", 1000)
     .floor("general_tokens_checked", 20_000)
     .floor("general_switch_to_other_mode", 2_000);
@@ -1160,7 +1252,7 @@ fn gen_c09_cfg(rng: &mut Rng) -> ScannerCfg {
             chosen.push(s);
         }
     }
-    let pats = chosen
+    let pats: Vec<RefPattern> = chosen
         .iter()
         .enumerate()
         .map(|(i, s)| RefPattern {
@@ -1169,7 +1261,23 @@ fn gen_c09_cfg(rng: &mut Rng) -> ScannerCfg {
             la: None,
         })
         .collect();
-    ScannerCfg::single(pats)
+    let mut cfg = ScannerCfg::single(pats);
+    // one configuration in three has a second mode with other patterns of the pool under the same
+    // token type numbers (a token re-read after set_mode + set_offset may start at the same offset,
+    // carry the same type and have another length)
+    if rng.chance(1, 3) {
+        let n2 = rng.range(1, 4);
+        let mut chosen2: Vec<&str> = Vec::new();
+        while chosen2.len() < n2 {
+            let s = *rng.pick(&pool);
+            if !chosen2.contains(&s) {
+                chosen2.push(s);
+            }
+        }
+        let pats2 = chosen2.iter().enumerate().map(|(i, s)| RefPattern { re: parse_to_ir(s).unwrap(), tt: i, la: None }).collect();
+        cfg.modes.push(ModeCfg { name: "SECOND".to_string(), pats: pats2, trans: vec![] });
+    }
+    cfg
 }
 
 fn gen_c09_input(rng: &mut Rng) -> String {
@@ -1213,6 +1321,14 @@ pub fn c09_case(rng: &mut Rng, st: &mut Stats) -> CaseOutcome {
             ($it:ident, $next:expr, $peek:expr) => {{
                 for _ in 0..nops {
                     let r = rng.below(100);
+                    if cfg.modes.len() > 1 && rng.chance(1, 12) {
+                        // the positions do not depend on the mode the tokens are read in
+                        let m = rng.below(cfg.modes.len());
+                        ScannerModeSwitcher::set_mode(&mut $it, m);
+                        log.push(format!("set_mode({})", m));
+                        st.count("set_mode_between_position_checks");
+                        continue;
+                    }
                     if r >= 92 {
                         // a peek must leave no trace in the positions (where the iterator offers it)
                         let n = rng.range(1, 4);
@@ -1328,6 +1444,7 @@ pub fn c09(tier: Tier) -> i32 {
     .floor("token_positions_checked", 50_000)
     .floor("peeks_between_position_checks", 5_000)
     .floor("histories_on_a_scanner_used_before", 3_000)
+    .floor("set_mode_between_position_checks", 3_000)
     .floor("inputs_with_more_than_65536_lines", 4)
     .floor("inputs_with_a_line_longer_than_65536_bytes", 4)
     .floor("big_input_token_positions_checked", 500_000)
